@@ -10,7 +10,7 @@ META = dict(
                'fake_trx.FakeTRX.sim_burst_drop', 'fake_trx.FakeTRX.handle_data_msg', 'burst_fwd.BurstForwarder.forward_msg', 'data_msg.TxMsg.trans', 'data_if.DATAInterface.send_msg', 'data_msg.RxMsg.gen_msg'],
     bounds=dict(all='one inductive step from an ARBITRARY drop state: burst_drop_amount symbolic 0..2^31, rf_muted of sender and recipient symbolic; drop period is a divisor and is enumerated over %s; '
                     'event = FAKE_DROP n | FAKE_DROP n p | RFMUTE x with n, p, x symbolic in [-2^31, 2^31], or one forwarded burst with symbolic FN/TN/attenuation (burst content concrete: content is covered by C10); header version 0/1 on both sides' % PERIODS),
-    stubs=['fake socket', 'logging', 'decimal-rendering ropes for command arguments (str(int), int(str), split, join)'],
+    stubs=['random.randint -> arbitrary value of the requested range', 'fake socket', 'logging', 'decimal-rendering ropes for command arguments (str(int), int(str), split, join)'],
     outside=['drop periods outside the enumerated set', 'whether a burst that is muted AND matches the drop filter consumes a drop (not stated by the property)'],
     assumptions=['"exactly the next n" follows from the step contract by induction on the counter: every matching burst is suppressed and decrements the counter by one while it is > 0, non-matching bursts leave it unchanged, at 0 nothing is suppressed'],
     explanation='step contracts checked for all values: command status/state update; suppressed <=> muted(src) or muted(dst) or (amount>0 and fn mod period == 0); counter update; NOPE indication content on v1, nothing on v0')
@@ -36,6 +36,9 @@ def setup(ctx, T, sver, dver):
     src = mk_trx(ctx, T, 'SRC', 5700, ver=sver); dst = mk_trx(ctx, T, 'DST', 6700, ver=dver)
     for t in (src, dst): t.running = True
     src._tx_freq = dst._rx_freq = 935000000; src._rx_freq = dst._tx_freq = 890000000
+    # simulation parameters left behind by earlier SETTA / FAKE_* / SETPOWER commands: arbitrary (the outcome of a suppressed burst must not depend on them)
+    src.ta = ctx.int('src.ta', 0, 63)
+    dst.toa256_base = ctx.int('dst.toa256_base', -1000, 1000); dst.ci_base = ctx.int('dst.ci_base', -100, 300)     # RSSI/attenuation keep their defaults: other values can leave the valid RSSI range, where nothing is sent at all (C10)
     return src, dst
 
 
